@@ -329,7 +329,7 @@ def model_runs(tier, work, res):
     """the exhaustive configurations, side by side"""
     quick = tier == "quick"
     cfgs = ["asyncio_q", "asyncio_q_two", "asyncio_q_life", "asyncio_q_b3"]
-    jobs = [(c, 4, 150) for c in cfgs]
+    jobs = [("asyncio_q", 6, 150), ("asyncio_q_b3", 4, 150), ("asyncio_q_life", 3, 150), ("asyncio_q_two", 3, 150)]
     if not quick:
         jobs = [("asyncio_t_b3", 6, 700), ("asyncio_t_life", 6, 700), ("asyncio_t", 6, 700), ("asyncio_t_b3n", 4, 700), ("asyncio_t_two", 4, 700)] \
             + [(c, 2, 300) for c in cfgs] + [(c, 4, 400) for c in FIX_CFGS]
@@ -376,7 +376,10 @@ def run_driver(scns, work, tag):
             f.write(json.dumps(s) + "\n")
     p = check.sh([DRV, scn_path, tr_path], timeout=1800, check=False)
     if p.returncode != 0:
-        raise check.ToolError("drive_asyncio failed (%d):\n%s" % (p.returncode, p.stdout[-3000:]))
+        last = re.findall(r"drive_asyncio: running (\S+)", p.stdout)
+        raise check.ToolError("drive_asyncio failed (%d%s) in scenario %s:\n%s" % (
+            p.returncode, ": killed by its watchdog, the loop thread was blocked" if p.returncode == -14 else "",
+            last[-1] if last else "?", p.stdout[-1500:]))
     m = re.search(r"capacity (\d+) blocks, POLLOUT low-water (-?\d+)", p.stdout)
     return scn_path, tr_path, (int(m.group(1)), int(m.group(2))) if m else None
 
@@ -518,10 +521,10 @@ def validate_all(groups, work, res):
     with concurrent.futures.ThreadPoolExecutor(max_workers=6) as ex:
         futs = []
         for tag, scns in groups:
-            for k in range(0, len(scns), 3000):
+            for k in range(0, len(scns), 2000):
                 r = check.Result()
                 parts.append(r)
-                futs.append(ex.submit(validate, scns[k:k + 3000], work, "%s_%d" % (tag, k // 3000), r))
+                futs.append(ex.submit(validate, scns[k:k + 2000], work, "%s_%d" % (tag, k // 2000), r))
         for f in futs:
             total.update(f.result()[1])
     for r in parts:
@@ -554,8 +557,8 @@ def engine(prop, tier, seed, work):
         nsim = 400 if quick else 4000
         for topo in TOPOS:
             rs["sim_" + topo] = check.Result()
-            parts["sim_" + topo] = ex.submit(sim_scenarios, topo, nsim if topo not in SHARED else nsim // 4, seed, work, rs["sim_" + topo],
-                                             topo not in SHARED)
+            # (the sim configurations of the shared topologies list only the invariants that are expected to hold there)
+            parts["sim_" + topo] = ex.submit(sim_scenarios, topo, nsim if topo not in SHARED else nsim // 4, seed, work, rs["sim_" + topo])
         got = {k: f.result() for k, f in parts.items()}
         for r in rs.values():
             res.merge(r)
@@ -581,6 +584,23 @@ def engine(prop, tier, seed, work):
                      "made a later scripted step fall outside the protocol (not judged from there on), %d with a different kernel result" % tuple(res.conform))
     for s in (CURATED[3], got["all_solo"][len(got["all_solo"]) // 2], got["sim_two"][0], by_topo["solo"][-1]):
         res.samples.append({"engine": "asyncio", "scenario": s})
+    return res
+
+
+# clauses of the Released group: what the kernel's epoll table / the slot list hold after an adapter is gone.  They are
+# C16's subject as well ("released fds are deregistered from the poller"), so C16 runs this engine and keeps only them.
+RELEASED_CLAUSES = {"fd_left_in_poller", "foreign_epoll_entry", "slot_leaked"}
+
+
+def engine_c16(prop, tier, seed, work):
+    res = engine(PROP, tier, seed, work)
+    keep = []
+    for v in res.viol:
+        cl = [c for c in v["clauses"] if c in RELEASED_CLAUSES]
+        if cl:
+            keep.append(dict(v, prop=prop, clauses=cl))
+    res.viol = keep
+    res.notes.append("Async adapters (engine asyncio): only the clauses %s count for %s" % (sorted(RELEASED_CLAUSES), prop))
     return res
 
 
@@ -687,7 +707,7 @@ def _st_finding(work=None):
     own, work = _own(work, "finding")
     try:
         for topo in SHARED:
-            scns = [s for s in CURATED if s["topo"] == topo]
+            scns = [dict(s, id="st_" + s["id"]) for s in CURATED if s["topo"] == topo]      # own ids: own replay files
             res = check.Result()
             validate(scns, work, "st_finding_" + topo, res, all_viol=True)
             got = set(c for v in res.viol for c in v["clauses"])
